@@ -156,6 +156,63 @@ plan("C17", jobs=lambda tier: special_jobs("wrappers", "C17", tier), level="expl
      technique="runtime differential monitor (zone wrapper) + address-range oracle and recover/compare (persistent wrapper)")
 
 
+SCHED_RULE = ("2-3 real threads on one real allocator; the interleaving is injected at the hook before every atomic access "
+              "(token scheduler): for every generated scenario the complete one-stall sweep (every thread stalled at every one of its "
+              "gates while the others run to completion), plus bounded-burst stalls, random walks and PCT-style priority schedules; "
+              "ownership shadow (insert at return / remove at call), panic capture, policy check, quiescent end-of-run comparison with "
+              "the model and conservation. distinct_nontrivial = distinct (scenario, schedule) runs in which two threads touched the "
+              "same word back to back with at least one write (capped per shard; conservative)")
+
+
+def sched_jobs(prop, tier, quick_s=40, thorough_s=600):
+    if tier == "quick":
+        return [job("sched", prop, "default", "vdev", shards=8, budget_s=quick_s),
+                job("sched", prop, "default", "vrel", shards=4, budget_s=quick_s),
+                job("sched", prop, "th2", "vdev", shards=4, budget_s=quick_s)]
+    js = [job("sched", prop, "default", "vdev", shards=6, budget_s=thorough_s, args=["--thorough"]),
+          job("sched", prop, "default", "vrel", shards=3, budget_s=thorough_s, args=["--thorough"]),
+          job("sched", prop, "th2", "vdev", shards=2, budget_s=thorough_s, args=["--thorough"])]
+    for g in ("th1", "th8", "16k", "16k_th2"):
+        js.append(job("sched", prop, g, "vdev", shards=1, budget_s=thorough_s, args=["--thorough"]))
+    return js
+
+
+plan("C01", jobs=lambda tier: sched_jobs("C01", tier), level="exploration", rule=SCHED_RULE, min_nontrivial=500,
+     technique="runtime monitor: ownership shadow over schedules injected at the atomic hook (stall sweep, PCT, random walk)")
+plan("C03", jobs=lambda tier: sched_jobs("C03", tier), level="exploration", rule=SCHED_RULE, min_nontrivial=500,
+     technique="runtime monitor: panic capture + ownership shadow over injected schedules")
+def c05_jobs(tier):
+    if tier == "quick":
+        return [job("seq", "C05", "default", "vdev", shards=5, budget_s=40),
+                job("seq", "C05", "th2", "vdev", shards=2, budget_s=40),
+                job("seq", "C05", "default", "vdev", shards=2, budget_s=40, args=["--exh", "--depth", "2", "--max-evals", "1"]),
+                job("sched", "C05", "default", "vdev", shards=5, budget_s=40),
+                job("sched", "C05", "th2", "vdev", shards=2, budget_s=40)]
+    b = 600
+    js = [job("seq", "C05", "default", "vdev", shards=4, budget_s=b),
+          job("seq", "C05", "default", "vrel", shards=1, budget_s=b),
+          job("seq", "C05", "default", "vdev", shards=2, budget_s=b, args=["--exh", "--thorough", "--depth", "3", "--max-evals", "1"]),
+          job("sched", "C05", "default", "vdev", shards=4, budget_s=b, args=["--thorough"])]
+    for g in ("th2", "th1", "th8", "16k"):
+        js.append(job("seq", "C05", g, "vdev", shards=1, budget_s=b))
+    js.append(job("sched", "C05", "th2", "vdev", shards=1, budget_s=b, args=["--thorough"]))
+    return js
+
+
+plan("C05", jobs=c05_jobs, level="fault_enumeration", min_nontrivial=500,
+     nontrivial=lambda m: int(m["crash_points"]),
+     rule=("a crash point = a copy of the persistent (lower) buffer taken at the hook immediately before an atomic write into it (and after the "
+           "completed call), in sequential histories (all crash points of each call, capped at 24 evenly spaced per call) and in token-scheduler "
+           "runs with 2-3 threads (every gated persistent write; all other threads parked at their gates). For each crash point a fresh allocator is "
+           "recovered from the copy alone (Init::Recover, zeroed volatile buffers) and judged: completed allocations still allocated and freeable, "
+           "untouched free frames free (in-flight calls tolerated only inside the blocks they name / one aligned block of the requested order), "
+           "fast == exact count, validate(). distinct_nontrivial = number of crash points judged (each is a distinct (history prefix, write index) pair)"),
+     technique="fault enumeration by runtime monitoring: crash snapshots at every hooked persistent write + recovery oracle")
+plan("C21", jobs=lambda tier: sched_jobs("C21", tier), level="exploration", min_nontrivial=500,
+     rule=SCHED_RULE + "; here every run freezes all threads at one gate p of a random-walk schedule (every gate of small scenarios, sampled for larger) and runs each in-flight call alone under a step budget of 20000 atomic accesses",
+     technique="runtime monitor: bounded-progress (step budget) oracle in solo mode of the token scheduler")
+
+
 # ------------------------------------------------------------------------------------------------
 # Execution
 
@@ -290,8 +347,9 @@ def finish(prop, tier, seed, t0, m, nontrivial, rule, extra_cov=None, min_nontri
         print(f"NOTE: {o['count']} observation(s) contradicting {k} seen while checking {prop} (decided by that property's own check); first: {o['first'][:200]}")
     for f in m["shard_failures"][:5]:
         print(f"SHARD-FAILURE: {f['job']} shard {f['shard']} rc={f['rc']}: {f['stderr'][-600:].strip()}")
-    for entry, hits in known_hits.items():
-        print(f"KNOWN-FINDING: property={prop} {kf[entry]['text']} (reproduced={len(hits)})")
+    for entry, e in enumerate(kf):
+        if e["prop"] == prop:
+            print(f"KNOWN-FINDING: property={prop} {e['text']} (reproduced={len(known_hits.get(entry, []))} in this run)")
     if viols:
         seen = set()
         for v in viols:
